@@ -137,3 +137,12 @@ Proof.
   destruct (Rltb_spec ((1 + 1 / 2000000000000000000) * (1 / 4503599627370496)) (1 / 2000000000000000000)) as [H|_]; [lra|].
   cbn [rbind]. eexists; reflexivity.
 Qed.
+
+(** C06_gamma_no_threshold: an argument beyond the range of doubles (x = 172 > 171.6243, Gamma(172) = 171! > DBL_MAX) still gets exp(GammaLn x) > 0 from the model over R,
+    and it is larger than the answer at 171 exactly when GammaLn is *)
+Example gamma_no_threshold_example : 0 < 172 /\ exists g v, gammaln ROps 172 = Ok g /\ gamma ROps 172 = Ok v /\ ln v = g /\ 0 < v.
+Proof.
+  split; [lra|]. destruct (gamma_no_threshold 172 ltac:(lra)) as (g & v & Hg & Hv & Hl & _ & _).
+  exists g, v. repeat split; try assumption.
+  destruct (proj2 (gamma_domain 172) ltac:(lra)) as (g' & Hg' & Hv' & Hp). rewrite Hv in Hv'. injection Hv' as ->. exact Hp.
+Qed.
